@@ -28,32 +28,12 @@ from ladybug_geometry.geometry3d.sphere import Sphere                   # noqa: 
 from ladybug_geometry.geometry3d.cone import Cone                       # noqa: E402
 from ladybug_geometry.geometry3d.cylinder import Cylinder               # noqa: E402
 
-STRUCT_SLOTS = {
-    'V2': [('_x', 'S'), ('_y', 'S')],
-    'V3': [('_x', 'S'), ('_y', 'S'), ('_z', 'S')],
-    'LR2': [('_p', 'V2'), ('_v', 'V2')],
-    'LR3': [('_p', 'V3'), ('_v', 'V3')],
-    'PlaneS': [('_n', 'V3'), ('_o', 'V3'), ('_k', 'S'), ('_x', 'V3'), ('_y', 'V3')],
-    'Arc2S': [('_c', 'V2'), ('_r', 'S'), ('_a1', 'S'), ('_a2', 'S')],
-    'Arc3S': [('_plane', 'PlaneS'), ('_r', 'S'), ('_a1', 'S'), ('_a2', 'S')],
-    'SphereS': [('_center', 'V3'), ('_radius', 'S')],
-    'ConeS': [('_vertex', 'V3'), ('_axis', 'V3'), ('_angle', 'S')],
-    'CylS': [('_center', 'V3'), ('_axis', 'V3'), ('_radius', 'S')],
-}
+import mtypes  # noqa: E402
+STRUCT_SLOTS = dict((k, [(slot, ft) for (f, ft, slot, c) in v])
+                    for k, v in mtypes.STRUCTS.items())
 
 
-def parse_type(t):
-    if isinstance(t, tuple):
-        return t
-    parts = t.split()
-    if len(parts) == 1:
-        return parts[0]
-    head = parts[0].lower()
-    if head in ('opt', 'list', 'ptlist'):
-        return (head, parse_type(' '.join(parts[1:])))
-    if head == 'tup':
-        return ('tup',) + tuple(parse_type(x) for x in parts[1:])
-    raise ValueError(t)
+from tyspec import parse_type  # noqa: E402,F401
 
 
 # ------------------------------------------------------------------ exact numbers
@@ -141,6 +121,8 @@ def canon_real(v, t):
     if isinstance(t, str):
         if isinstance(v, (tuple, list)):
             return [fr(x) for x in v]
+        if not all(hasattr(v, slot) for (slot, ft) in STRUCT_SLOTS[t]):
+            raise TypeError('%r is not a %s' % (v, t))
         return [canon_real(getattr(v, slot), ft) for (slot, ft) in STRUCT_SLOTS[t]]
     if t[0] == 'opt':
         return None if v is None else canon_real(v, t[1])
@@ -153,7 +135,14 @@ def canon_real(v, t):
             v = [v]
         return [canon_real(x, t[1]) for x in v]
     if t[0] == 'tup':
+        if not isinstance(v, (tuple, list)) or len(v) != len(t) - 1:
+            raise TypeError('expected %d-tuple' % (len(t) - 1))
         return [canon_real(x, tt) for x, tt in zip(v, t[1:])]
+    if t[0] == 'sum':
+        try:
+            return ['inl', canon_real(v, t[1])]
+        except (TypeError, AttributeError, ValueError):
+            return ['inr', canon_real(v, t[2])]
     raise ValueError(t)
 
 
@@ -175,6 +164,10 @@ def canon_wire(j, t):
     if t[0] == 'tup':
         items = unnest(j, len(t) - 1)
         return [canon_wire(x, tt) for x, tt in zip(items, t[1:])]
+    if t[0] == 'sum':
+        if 'inl' in j:
+            return ['inl', canon_wire(j['inl'], t[1])]
+        return ['inr', canon_wire(j['inr'], t[2])]
     raise ValueError(t)
 
 
@@ -196,6 +189,8 @@ def same_shape(a, b):
     if isinstance(a, bool) or isinstance(b, bool) or a is None or b is None or \
             isinstance(a, int) or isinstance(b, int):
         return a == b and type(a) == type(b)
+    if isinstance(a, str) or isinstance(b, str):
+        return a == b
     if isinstance(a, (list, tuple)) and isinstance(b, (list, tuple)):
         return len(a) == len(b) and all(same_shape(x, y) for x, y in zip(a, b))
     return False
@@ -307,11 +302,37 @@ class Gen(object):
         a = r.uniform(0, 2 * math.pi)
         return Vector2D(math.cos(a), math.sin(a)).normalize()
 
-    def value(self, t, pycls, stream):
+    def value(self, t, pycls, stream, hint=None):
         """Random real object for model type t / python class pycls."""
         t = parse_type(t)
         r = self.rng
         s = lambda: self.scalar(stream)     # noqa: E731
+        if hint == 'unit':
+            return self.unit2(stream) if t == 'V2' else self.unit3(stream)
+        if hint == 'nonzero':
+            while True:
+                v = self.value(t, pycls, stream)
+                if v.magnitude_squared != 0:
+                    return v
+        if hint == 'angle':
+            return self.angle(stream)
+        if hint == 'arcangle':
+            if stream == 'lattice':
+                return r.randint(0, 16) * math.pi / 8
+            return r.uniform(0, 2 * math.pi)
+        if hint == 'factor':
+            f = r.choice([0.25, 0.5, 2.0, 3.0, -1.5]) if stream == 'lattice' else \
+                r.choice([-1, 1]) * r.uniform(0.05, 20)
+            return f
+        if hint == 'posfactor':
+            return r.choice([0.25, 0.5, 2.0, 3.0]) if stream == 'lattice' else \
+                r.uniform(0.05, 20)
+        if hint == 'pos':
+            return abs(s()) + 0.25
+        if hint == 'tol':
+            return r.choice([0.0, 0.25, 1.0, 1e-3, 0.01])
+        if hint == 'unitinterval':
+            return r.randint(0, 8) / 8.0 if stream == 'lattice' else r.random()
         if t == 'S':
             return s()
         if t == 'B':
@@ -384,7 +405,7 @@ class Gen(object):
 
 
 # ------------------------------------------------------------------ real-side calls
-def resolve_real(target):
+def resolve_real(target, ctor=False):
     """'intersection2d.intersect_line2d' | 'geometry2d.pointvector:Vector2D.dot'
     -> (callable taking the kernel's positional args)."""
     if ':' in target:
@@ -392,6 +413,8 @@ def resolve_real(target):
         mod = importlib.import_module('ladybug_geometry.' + modname)
         clsname, meth = rest.split('.')
         cls = getattr(mod, clsname)
+        if ctor:
+            return cls
         if meth.startswith('__') and not meth.endswith('__'):
             # private member: find the defining class for the mangled name
             for c in cls.__mro__:
